@@ -159,6 +159,40 @@ func collectFacts(p *packages.Package, fd *ast.FuncDecl, name string, m map[stri
 		})
 		boolFact(m, "listener_loop_closes_connChan_only_after_wait", closeAfterWait && !closeElsewhere)
 		boolFact(m, "listener_loop_closes_done_then_drains", closesDone && drains)
+	case "layer4.Connection.prefetch":
+		// the read error is returned only when the read brought no bytes: every `return err` sits directly in an `if`
+		// whose condition is the conjunction of `err != nil` and `n == 0`
+		okRet, badRet := 0, 0
+		var walk func(n ast.Node, guard string)
+		walk = func(n ast.Node, guard string) {
+			ast.Inspect(n, func(x ast.Node) bool {
+				switch t := x.(type) {
+				case *ast.FuncLit:
+					return false
+				case *ast.IfStmt:
+					if t.Init != nil {
+						walk(t.Init, guard)
+					}
+					walk(t.Body, exprString(t.Cond))
+					if t.Else != nil {
+						walk(t.Else, "")
+					}
+					return false
+				case *ast.ReturnStmt:
+					if len(t.Results) == 1 && exprString(t.Results[0]) == "err" {
+						g := strings.ReplaceAll(guard, " ", "")
+						if g == "err!=nil&&n==0" || g == "n==0&&err!=nil" {
+							okRet++
+						} else {
+							badRet++
+						}
+					}
+				}
+				return true
+			})
+		}
+		walk(fd.Body, "")
+		boolFact(m, "prefetch_returns_read_error_only_without_bytes", okRet == 1 && badRet == 0)
 	case "layer4.listener.pipeConnection":
 		all, any := true, false
 		ast.Inspect(fd.Body, func(n ast.Node) bool {
@@ -682,6 +716,8 @@ func exprString(e ast.Expr) string {
 		return t.Op.String() + exprString(t.X)
 	case *ast.ParenExpr:
 		return exprString(t.X)
+	case *ast.BinaryExpr:
+		return exprString(t.X) + t.Op.String() + exprString(t.Y)
 	}
 	return "?"
 }
